@@ -527,14 +527,14 @@ def _emit(template, r, spec, pools, draw, st, indent, depth, top):
 
 
 def _body(r, spec, pools, draw, st, indent, depth):
-    n = draw(st.integers(0, 3 if depth < 3 else 1))
+    n = draw(st.sampled_from([0, 1, 1, 2, 2, 3] if depth < 3 else [0, 1, 1]))
     if n == 0:
         r.labels.add("empty_body")
         if spec.empty_body:
             r.lines.append(indent + spec.empty_body)
         return
     for _ in range(n):
-        if depth < 3 and draw(st.integers(0, 9)) < 4:
+        if depth < 3 and draw(st.sampled_from([0, 1, 2, 3, 4, 5, 6, 7, 8, 9])) < 4:
             r.labels.add("nested_compound" if depth >= 1 else "compound")
             _emit(draw(st.sampled_from(pools.compound)), r, spec, pools, draw, st, indent, depth, False)
         else:
@@ -548,7 +548,7 @@ def generate_program(lang, draw, st, avoid=()):
     r = Rendered()
     for h in spec.header:
         r.lines.append(h.replace("{{", "{").replace("}}", "}"))
-    n_items = draw(st.integers(1, 7))
+    n_items = draw(st.sampled_from([1, 2, 3, 4, 5, 6, 7, 8]))
     for _ in range(n_items):
         k = draw(st.sampled_from([0, 1, 2, 3, 4, 5, 6, 7, 8, 9]))
         has_top = bool(pools.top_simple)
@@ -662,6 +662,52 @@ def mutate_once(data, lang, draw, st, op, other=None):
         i = draw(st.integers(0, n))
         return data[:i] + tok * k + data[i:]
     return data
+
+
+class RandSt:
+    """Look-alikes of the few Hypothesis strategies used above, evaluated by rand_draw() with a
+    random.Random that Hypothesis supplies (st.randoms(use_true_random=True): seeded from Hypothesis data,
+    so a case is still a pure function of the Hypothesis seed).  Reason: Hypothesis's own integers() and
+    sampled_from() are skewed towards the ends of the range / the first elements; positions drawn that way
+    hit byte 0 in a third of the cases (destroying e.g. `<?php`) and the first templates far too often."""
+
+    @staticmethod
+    def integers(a, b):
+        return ("i", a, b)
+
+    @staticmethod
+    def sampled_from(xs):
+        return ("s", xs)
+
+    @staticmethod
+    def booleans():
+        return ("b",)
+
+    @staticmethod
+    def binary(min_size=0, max_size=8):
+        return ("bin", min_size, max_size)
+
+    @staticmethod
+    def one_of(*alts):
+        return ("o", alts)
+
+
+def rand_draw(rnd):
+    def draw(x):
+        k = x[0]
+        if k == "i":
+            return rnd.randint(x[1], x[2])
+        if k == "s":
+            xs = x[1]
+            return xs[rnd.randrange(len(xs))]
+        if k == "b":
+            return rnd.random() < 0.5
+        if k == "bin":
+            return bytes(rnd.randrange(256) for _ in range(rnd.randint(x[1], x[2])))
+        if k == "o":
+            return draw(x[1][rnd.randrange(len(x[1]))])
+        raise ValueError(x)
+    return draw
 
 
 def encode_text(data):
